@@ -23,7 +23,7 @@ type GenOpts struct {
 	Size     int      // rough number of leaves / elements to produce
 	Vocab    []string // if set, strings are drawn from here most of the time (collisions for interning)
 	MaxDepth int
-	ZeroPct  int // probability (percent) that a struct field is left at zero
+	ZeroPct  int  // probability (percent) that a struct field is left at zero
 	NoMulti  bool // maps get at most one entry
 	// NonCanonical also produces values that plenc normalises on the way
 	// through (times outside UTC). Only for operations whose oracle does not
